@@ -8,7 +8,7 @@ FC = "src/histogram_const.rs"
 def hist_job(prop, lens, names, unwind, timeout=1500, jobs=12, features="std", harness_timeout=None):
     """names: list of (harness fn, obligation suffix, function under contract[, expect_panic])."""
     job = KaniJob(prop, features=features, timeout=timeout, jobs=jobs, harness_timeout=harness_timeout)
-    job.include_in_macro(F, "define_histogram_common", "histogram.rs")
+    job.include_in_macro(F, "define_histogram_common", "histogram.rs", prelude="use crate::{InvalidRangeError, SampleOutOfRangeError};")
     inst = []
     for L in lens:
         if L != 10:
